@@ -120,36 +120,84 @@ theorem isValidID_matches (v : List UInt8) : Funcs.isValidID v = Wire.isValidID 
 
 abbrev pf := Funcs.parseField unmStrM unmErrM fbM
 
+/-! comparisons of the member names with the literals of the translated switch (any case order) -/
+theorem keq_kJsonrpc_kJsonrpc : (kJsonrpc == ([106, 115, 111, 110, 114, 112, 99] : List UInt8)) = true := by decide
+theorem keq_kJsonrpc_kId : (kJsonrpc == ([105, 100] : List UInt8)) = false := by decide
+theorem keq_kJsonrpc_kMethod : (kJsonrpc == ([109, 101, 116, 104, 111, 100] : List UInt8)) = false := by decide
+theorem keq_kJsonrpc_kParams : (kJsonrpc == ([112, 97, 114, 97, 109, 115] : List UInt8)) = false := by decide
+theorem keq_kJsonrpc_kError : (kJsonrpc == ([101, 114, 114, 111, 114] : List UInt8)) = false := by decide
+theorem keq_kJsonrpc_kResult : (kJsonrpc == ([114, 101, 115, 117, 108, 116] : List UInt8)) = false := by decide
+theorem keq_kId_kJsonrpc : (kId == ([106, 115, 111, 110, 114, 112, 99] : List UInt8)) = false := by decide
+theorem keq_kId_kId : (kId == ([105, 100] : List UInt8)) = true := by decide
+theorem keq_kId_kMethod : (kId == ([109, 101, 116, 104, 111, 100] : List UInt8)) = false := by decide
+theorem keq_kId_kParams : (kId == ([112, 97, 114, 97, 109, 115] : List UInt8)) = false := by decide
+theorem keq_kId_kError : (kId == ([101, 114, 114, 111, 114] : List UInt8)) = false := by decide
+theorem keq_kId_kResult : (kId == ([114, 101, 115, 117, 108, 116] : List UInt8)) = false := by decide
+theorem keq_kMethod_kJsonrpc : (kMethod == ([106, 115, 111, 110, 114, 112, 99] : List UInt8)) = false := by decide
+theorem keq_kMethod_kId : (kMethod == ([105, 100] : List UInt8)) = false := by decide
+theorem keq_kMethod_kMethod : (kMethod == ([109, 101, 116, 104, 111, 100] : List UInt8)) = true := by decide
+theorem keq_kMethod_kParams : (kMethod == ([112, 97, 114, 97, 109, 115] : List UInt8)) = false := by decide
+theorem keq_kMethod_kError : (kMethod == ([101, 114, 114, 111, 114] : List UInt8)) = false := by decide
+theorem keq_kMethod_kResult : (kMethod == ([114, 101, 115, 117, 108, 116] : List UInt8)) = false := by decide
+theorem keq_kParams_kJsonrpc : (kParams == ([106, 115, 111, 110, 114, 112, 99] : List UInt8)) = false := by decide
+theorem keq_kParams_kId : (kParams == ([105, 100] : List UInt8)) = false := by decide
+theorem keq_kParams_kMethod : (kParams == ([109, 101, 116, 104, 111, 100] : List UInt8)) = false := by decide
+theorem keq_kParams_kParams : (kParams == ([112, 97, 114, 97, 109, 115] : List UInt8)) = true := by decide
+theorem keq_kParams_kError : (kParams == ([101, 114, 114, 111, 114] : List UInt8)) = false := by decide
+theorem keq_kParams_kResult : (kParams == ([114, 101, 115, 117, 108, 116] : List UInt8)) = false := by decide
+theorem keq_kError_kJsonrpc : (kError == ([106, 115, 111, 110, 114, 112, 99] : List UInt8)) = false := by decide
+theorem keq_kError_kId : (kError == ([105, 100] : List UInt8)) = false := by decide
+theorem keq_kError_kMethod : (kError == ([109, 101, 116, 104, 111, 100] : List UInt8)) = false := by decide
+theorem keq_kError_kParams : (kError == ([112, 97, 114, 97, 109, 115] : List UInt8)) = false := by decide
+theorem keq_kError_kError : (kError == ([101, 114, 114, 111, 114] : List UInt8)) = true := by decide
+theorem keq_kError_kResult : (kError == ([114, 101, 115, 117, 108, 116] : List UInt8)) = false := by decide
+theorem keq_kResult_kJsonrpc : (kResult == ([106, 115, 111, 110, 114, 112, 99] : List UInt8)) = false := by decide
+theorem keq_kResult_kId : (kResult == ([105, 100] : List UInt8)) = false := by decide
+theorem keq_kResult_kMethod : (kResult == ([109, 101, 116, 104, 111, 100] : List UInt8)) = false := by decide
+theorem keq_kResult_kParams : (kResult == ([112, 97, 114, 97, 109, 115] : List UInt8)) = false := by decide
+theorem keq_kResult_kError : (kResult == ([101, 114, 114, 111, 114] : List UInt8)) = false := by decide
+theorem keq_kResult_kResult : (kResult == ([114, 101, 115, 117, 108, 116] : List UInt8)) = true := by decide
+
+macro "pf_reduce" : tactic => `(tactic|
+  (unfold pf Funcs.parseField
+   simp only [keq_kJsonrpc_kJsonrpc, keq_kJsonrpc_kId, keq_kJsonrpc_kMethod, keq_kJsonrpc_kParams, keq_kJsonrpc_kError, keq_kJsonrpc_kResult, keq_kId_kJsonrpc, keq_kId_kId, keq_kId_kMethod, keq_kId_kParams, keq_kId_kError, keq_kId_kResult, keq_kMethod_kJsonrpc, keq_kMethod_kId, keq_kMethod_kMethod, keq_kMethod_kParams, keq_kMethod_kError, keq_kMethod_kResult, keq_kParams_kJsonrpc, keq_kParams_kId, keq_kParams_kMethod, keq_kParams_kParams, keq_kParams_kError, keq_kParams_kResult, keq_kError_kJsonrpc, keq_kError_kId, keq_kError_kMethod, keq_kError_kParams, keq_kError_kError, keq_kError_kResult, keq_kResult_kJsonrpc, keq_kResult_kId, keq_kResult_kMethod, keq_kResult_kParams, keq_kResult_kError, keq_kResult_kResult, Bool.false_eq_true, Bool.or_false, Bool.false_or, Bool.or_true, Bool.true_or, if_true, if_false]))
+
 theorem pf_jsonrpc (st : Funcs.ParseSt) (v : List UInt8) :
     pf st kJsonrpc v =
       (let st' := { st with v := (unmStrM v st.v).1 }
-       if (unmStrM v st.v).2 then Funcs.psFail st' Consts.ParseError else st') := rfl
+       if (unmStrM v st.v).2 then Funcs.psFail st' Consts.ParseError else st') := by
+  pf_reduce
+  all_goals (cases h : (unmStrM v st.v).2 <;> simp [h])
 
 theorem pf_id (st : Funcs.ParseSt) (v : List UInt8) :
-    pf st kId v = if Funcs.isValidID v then { st with id := v } else Funcs.psFail st Consts.InvalidRequest := rfl
+    pf st kId v = if Funcs.isValidID v then { st with id := v } else Funcs.psFail st Consts.InvalidRequest := by
+  pf_reduce
+  all_goals (cases h : Funcs.isValidID v <;> simp [h])
 
 theorem pf_method (st : Funcs.ParseSt) (v : List UInt8) :
     pf st kMethod v =
       (let st' := { st with m := (unmStrM v st.m).1 }
-       if (unmStrM v st.m).2 then Funcs.psFail st' Consts.ParseError else st') := rfl
+       if (unmStrM v st.m).2 then Funcs.psFail st' Consts.ParseError else st') := by
+  pf_reduce
+  all_goals (cases h : (unmStrM v st.m).2 <;> simp [h])
 
-theorem pf_result (st : Funcs.ParseSt) (v : List UInt8) : pf st kResult v = { st with r := v } := rfl
+theorem pf_result (st : Funcs.ParseSt) (v : List UInt8) : pf st kResult v = { st with r := v } := by
+  pf_reduce
+  all_goals (first | rfl | simp)
 
 theorem pf_error (st : Funcs.ParseSt) (v : List UInt8) :
     pf st kError v =
       (let st' := { st with e := (unmErrM v st.e).1 }
-       if (unmErrM v st.e).2 then Funcs.psFail st' Consts.ParseError else st') := rfl
+       if (unmErrM v st.e).2 then Funcs.psFail st' Consts.ParseError else st') := by
+  pf_reduce
+  all_goals (cases h : (unmErrM v st.e).2 <;> simp [h])
 
 theorem pf_params (st : Funcs.ParseSt) (v : List UInt8) :
     pf st kParams v =
       (let st' := if !Funcs.isNull v then { st with p := v } else st
        if (fbM st'.p != 0 && fbM st'.p != 91) && fbM st'.p != 123 then Funcs.psFail st' Consts.InvalidRequest else st') := by
-  unfold pf Funcs.parseField
-  have e1 : (kParams == ([106, 115, 111, 110, 114, 112, 99] : List UInt8)) = false := by decide
-  have e2 : (kParams == ([105, 100] : List UInt8)) = false := by decide
-  have e3 : (kParams == ([109, 101, 116, 104, 111, 100] : List UInt8)) = false := by decide
-  have e4 : (kParams == ([112, 97, 114, 97, 109, 115] : List UInt8)) = true := by decide
-  simp only [e1, e2, e3, e4, Bool.false_eq_true, if_false, if_true]
+  pf_reduce
+  all_goals (cases h : Funcs.isNull v <;> simp [h])
 
 theorem pf_other (st : Funcs.ParseSt) (k v : List UInt8) (hk : knownKeys.contains k = false) :
     pf st k v = { st with extra := st.extra ++ [k] } := by
@@ -365,6 +413,10 @@ theorem parsePost_agrees (l : List (List UInt8 × List UInt8)) (st : Funcs.Parse
     rw [← hx]
     cases st.extra <;> simp [GoLen.len]
     omega
+  have hxb' : (decide ((GoLen.len st.extra : Int) > 0)) = l.any unknownKey := by
+    rw [← hxb]
+    cases st.extra <;> simp [GoLen.len]
+    omega
   have hpost : ∀ s : Funcs.ParseSt, (Funcs.parsePost s).v = s.v ∧ (Funcs.parsePost s).id = s.id ∧ (Funcs.parsePost s).m = s.m ∧
       (Funcs.parsePost s).p = s.p ∧ (Funcs.parsePost s).e = s.e ∧ (Funcs.parsePost s).r = s.r ∧ (Funcs.parsePost s).extra = s.extra := by
     intro s
@@ -377,11 +429,12 @@ theorem parsePost_agrees (l : List (List UInt8 × List UInt8)) (st : Funcs.Parse
       match st.err with
       | some c => some c
       | none => (postChecks st.v st.m st.e.isSome st.r (l.any unknownKey)).head? := by
+    have hver : Wire.version = [50, 46, 48] := rfl
     unfold Funcs.parsePost postChecks
-    rw [version_matches]
+    simp only [version_matches]
     cases hE : st.err <;> cases hev : st.e <;> cases hrr : st.r <;> cases hmm : st.m <;>
-      by_cases hvv : st.v = Wire.version <;> cases hany : l.any unknownKey <;>
-      simp [psFail_fields, hE, hev, hrr, hmm, hvv, hxb, hany, GoNil.isNil, hI, Funcs.psFail]
+      by_cases hvv : st.v = ([50, 46, 48] : List UInt8) <;> cases hany : l.any unknownKey <;>
+      simp [psFail_fields, hE, hev, hrr, hmm, hvv, hxb, hany, GoNil.isNil, hI, Funcs.psFail, hver, hxb']
   refine ⟨by rw [p1, jv], by rw [p2, jid], by rw [p3, jm], by rw [p4, jp], by rw [p5, je], by rw [p6, jr], ?_, ?_, ?_⟩
   · rw [p7, jx]; exact hx
   · rw [herr, parseObject_errs, jv, jm, je, jr, jx]
